@@ -413,6 +413,14 @@ def _(c):
         mid = d0 + timedelta(seconds=span / 3)
         c.ensure("interior_member", mid in r)
     c.ensure("outside_not_member", (d0 - timedelta(seconds=st)) not in r and (stop + timedelta(seconds=st)) not in r)
+    # the same range with its bounds handed over under other scale labels (same instants): length, iteration and membership are those of the instants
+    # ("independent of the scale label")
+    for la, lb in (("TAI", "UTC"), ("UTC", "TT"), ("GPS", "TAI"), ("TT", "GPS")):
+        r2 = Date.range(d0.change_scale(la), stop.change_scale(lb), timedelta(seconds=st), inclusive=inc)
+        items2 = list(r2)
+        c.ensure("labels.len_equals_iteration", len(r2) == len(items2) == len(items))
+        c.ensure("labels.same_instants", len(items2) == len(items) and all(abs((x - y).total_seconds()) < 2e-6 for x, y in zip(items2, items)))
+        c.ensure("labels.iterated_are_members", all(x in r2 for x in items2) and all(x in r2 for x in items))
     c.ensure("bad_direction_rejected", c.raises(ValueError, lambda: Date.range(d0, d0 + timedelta(seconds=10), timedelta(seconds=-1))))
     c.ensure("null_step_rejected", c.raises(ValueError, lambda: Date.range(d0, d0 + timedelta(seconds=10), timedelta(0))))
 
